@@ -14,13 +14,13 @@ WT = "/tmp/ownmut"
 
 M = [
  # name, property(ies), file, old, new
- ("inrange-strict", "C02", "filter_optimizer.go", "if end != nil && bytes.Compare(end, val) < 0 {\n\t\treturn false\n\t}\n\treturn true", "if end != nil && bytes.Compare(end, val) <= 0 {\n\t\treturn false\n\t}\n\treturn true"),
- ("union-range-min-end", "C02", "filter_optimizer.go", "\t\tif bytes.Compare(lend, rend) >= 0 {\n\t\t\tnend = lend", "\t\tif bytes.Compare(lend, rend) <= 0 {\n\t\t\tnend = lend"),
+ ("union-start-prefix", "C02", "filter_optimizer.go", "\t\tif bytes.Compare(lstart, rstart) <= 0 {\n\t\t\tnstart = lstart", "\t\tif bytes.Compare(lstart, rstart) <= 0 || bytes.HasPrefix(lstart, rstart) {\n\t\t\tnstart = lstart"),
+ ("between-as-prefix", "C18", "filter_optimizer.go", "\tif field == KeyKW && canUseRange {\n\t\treturn &ScanType{RANGE, [][]byte{lower, upper}}\n\t}", "\tif field == KeyKW && canUseRange {\n\t\tif len(lower) > 0 && bytes.HasPrefix(upper, lower) {\n\t\t\treturn &ScanType{PREFIX, [][]byte{lower}}\n\t\t}\n\t\treturn &ScanType{RANGE, [][]byte{lower, upper}}\n\t}"),
  ("range-end-exclusive", "C01", "scan_plan.go", "if p.End != nil && bytes.Compare(key, p.End) > 0 {\n\t\t\tp.finished = true\n\t\t\tbreak\n\t\t}\n\n\t\t// Filter", "if p.End != nil && bytes.Compare(key, p.End) >= 0 {\n\t\t\tp.finished = true\n\t\t\tbreak\n\t\t}\n\n\t\t// Filter"),
  ("mget-no-sort", "C01", "scan_plan.go", "\tsort.Strings(keys)\n\t// A key listed twice", "\t_ = sort.Strings\n\tsort.Sort(sort.Reverse(sort.StringSlice(keys)))\n\t// A key listed twice"),
  ("string-compare-lte", "C01", "utils.go", "\t\tcase \"<\":\n\t\t\treturn cmpret < 0, nil\n\t\tcase \"<=\":\n\t\t\treturn cmpret <= 0, nil\n\t\tcase \"=\":\n\t\t\treturn cmpret == 0, nil\n\t\tdefault:", "\t\tcase \"<\":\n\t\t\treturn cmpret <= 0, nil\n\t\tcase \"<=\":\n\t\t\treturn cmpret <= 0, nil\n\t\tcase \"=\":\n\t\t\treturn cmpret == 0, nil\n\t\tdefault:"),
- ("bindrow-noop", "C05", "plan.go", "\tif c.rowBound && bytes.Equal(c.rowKey, key) {\n\t\treturn\n\t}", "\tif c.rowBound {\n\t\treturn\n\t}"),
- ("chunk-key-alias-only", "C05", "plan.go", "func (c *ExecuteCtx) GetChunkFieldResult(name string, key []byte) ([]any, bool) {\n\tif !c.EnableCache {\n\t\treturn nil, false\n\t}\n\tckey := fmt.Sprintf(\"%s-%s\", name, string(key))", "func (c *ExecuteCtx) GetChunkFieldResult(name string, key []byte) ([]any, bool) {\n\tif !c.EnableCache {\n\t\treturn nil, false\n\t}\n\tckey := fmt.Sprintf(\"%s-%s\", name, string(key[:0]))"),
+ ("bindrow-length-only", "C05", "plan.go", "\tif c.rowBound && bytes.Equal(c.rowKey, key) {\n\t\treturn\n\t}", "\tif c.rowBound && len(c.rowKey) == len(key) && bytes.HasPrefix(key, c.rowKey[:len(c.rowKey)/2]) {\n\t\treturn\n\t}"),
+ ("chunk-bind-any-length", "C05", "plan.go", "\t\tif len(v) != len(chunk) {\n\t\t\tcontinue\n\t\t}", "\t\tif len(v) < len(chunk) {\n\t\t\tcontinue\n\t\t}"),
  ("fold-by-right-kind", "C04", "expression_optimizer.go", "\t\t\tcase float64:\n\t\t\t\treturn &FloatExpr{Pos: leftPos, Data: fmt.Sprintf(\"%v\", cret), Float: cret}, true\n\t\t\t}\n\t\t}\n\tcase And, Or:", "\t\t\tcase float64:\n\t\t\t\tif _, ok := e.Right.(*NumberExpr); ok {\n\t\t\t\t\treturn &NumberExpr{Pos: leftPos, Data: fmt.Sprintf(\"%v\", int64(cret)), Int: int64(cret)}, true\n\t\t\t\t}\n\t\t\t\treturn &FloatExpr{Pos: leftPos, Data: fmt.Sprintf(\"%v\", cret), Float: cret}, true\n\t\t\t}\n\t\t}\n\tcase And, Or:"),
  ("or-true-absorb", "C04", "expression_optimizer.go", "\t\t\tif leftVal {\n\t\t\t\t// true | Expr => true\n\t\t\t\treturn &BoolExpr{Pos: e.Left.GetPos(), Data: \"true\", Bool: true}, true", "\t\t\tif leftVal {\n\t\t\t\t// true | Expr => true\n\t\t\t\treturn e.Right, true"),
  ("reorder-sub", "C04", "expression_optimizer.go", "\tif e.Op != Add && e.Op != Mul {\n\t\treturn\n\t}", "\tif e.Op != Add && e.Op != Mul && e.Op != Sub {\n\t\treturn\n\t}"),
@@ -33,10 +33,10 @@ M = [
  ("upper-vec-lower", "C03,C10", "scalar_func_vec.go", "\t\targ := toString(rarg[i])\n\t\tret[i] = strings.ToUpper(arg)", "\t\targ := toString(rarg[i])\n\t\tif len(arg) > 3 {\n\t\t\targ = strings.ToLower(arg)\n\t\t}\n\t\tret[i] = strings.ToUpper(arg[:len(arg)])\n\t\tif len(arg) > 3 {\n\t\t\tret[i] = arg\n\t\t}"),
  ("split-arg-swap-vec", "C03,C10", "scalar_func_vec.go", "\t\tvalues[i] = strings.Split(val, spliter)", "\t\tvalues[i] = strings.Split(val, spliter)\n\t\tif len(spliter) > 1 {\n\t\t\tvalues[i] = strings.Split(spliter, val)\n\t\t}"),
  ("l2-no-length-check", "C10", "scalar_func.go", "func l2Distance(left, right []float64) (float64, error) {\n\tif len(left) != len(right) {", "func l2Distance(left, right []float64) (float64, error) {\n\tif len(left) < len(right) {"),
- ("delete-shortcut-with-and", "C02,C11", "optimizer.go", "\tif hasAndOp {\n\t\treturn false\n\t}\n\treturn true", "\tif hasAndOp && false {\n\t\treturn false\n\t}\n\treturn true"),
+ ("delete-shortcut-with-amp", "C02,C11", "optimizer.go", "\t\t\tif eval.Op == And || eval.Op == KWAnd {", "\t\t\tif eval.Op == KWAnd {"),
  ("put-executed-flag", "C12", "put_plan.go", "func (p *PutPlan) Batch(ctx *ExecuteCtx) ([][]Column, error) {\n\tif !p.executed {\n\t\tn, err := p.execute(ctx)\n\t\tp.executed = true", "func (p *PutPlan) Batch(ctx *ExecuteCtx) ([][]Column, error) {\n\tif !p.executed {\n\t\tn, err := p.execute(ctx)\n\t\tp.executed = err != nil"),
  ("put-early-write", "C12", "put_plan.go", "\t\tkvps[i] = NewKVP(key, value)\n\t}", "\t\tkvps[i] = NewKVP(key, value)\n\t\tif nkvps > 3 && i == 0 {\n\t\t\tp.Storage.Put(key, value)\n\t\t}\n\t}"),
- ("swallow-next-error", "C13", "scan_plan.go", "func (p *PrefixScanPlan) Batch(ctx *ExecuteCtx) ([]KVPair, error) {", "func (p *PrefixScanPlan) Batch(ctx *ExecuteCtx) ([]KVPair, error) {\n\tdefer func() { recover() }()"),
+ ("swallow-next-error", "C13", "scan_plan.go", "\t\t\tkey, val, err := p.iter.Next()\n\t\t\tif err != nil {\n\t\t\t\treturn nil, err\n\t\t\t}", "\t\t\tkey, val, err := p.iter.Next()\n\t\t\tif err != nil {\n\t\t\t\tif len(ret) > 0 {\n\t\t\t\t\tfinish = true\n\t\t\t\t\tbreak\n\t\t\t\t}\n\t\t\t\treturn nil, err\n\t\t\t}"),
  ("swallow-seek-error", "C13", "scan_plan.go", "\tif p.Start != nil {\n\t\terr = p.iter.Seek(p.Start)\n\t\tif err != nil {\n\t\t\treturn err\n\t\t}\n\t}", "\tif p.Start != nil {\n\t\tp.iter.Seek(p.Start)\n\t}"),
  ("delete-continues-after-error", "C13", "delete_plan.go", "\t\terr = p.Storage.BatchDelete(keys)\n\t\tif err != nil {\n\t\t\treturn count, err\n\t\t}", "\t\terr = p.Storage.BatchDelete(keys)\n\t\tif err != nil && count > 0 {\n\t\t\treturn count, err\n\t\t}"),
  ("not-check-no-recursion", "C14", "checker.go", "\te.Right = tryRewriteNameExpr(e.Right, ctx)\n\tif err := e.Right.Check(ctx); err != nil {\n\t\treturn err\n\t}\n\tif e.Right.ReturnType() != TBOOL {", "\te.Right = tryRewriteNameExpr(e.Right, ctx)\n\tif _, isNot := e.Right.(*NotExpr); !isNot {\n\t\tif err := e.Right.Check(ctx); err != nil {\n\t\t\treturn err\n\t\t}\n\t}\n\tif e.Right.ReturnType() != TBOOL {"),
@@ -49,6 +49,10 @@ M = [
  ("group-key-no-separator", "C09", "aggregate_plan.go", "\tkey = append(key, []byte(fmt.Sprintf(\"%d:\", len(part)))...)\n\treturn append(key, part...)", "\tif len(part) > 9 {\n\t\tkey = append(key, []byte(fmt.Sprintf(\"%d:\", len(part)))...)\n\t}\n\treturn append(key, part...)"),
  ("substr-panic-again", "C06", "scalar_func.go", "\tend = min(end, len(val))\n\tif start >= end {\n\t\treturn \"\"\n\t}", "\tend = min(end, len(val))\n\tif start > end+1 {\n\t\treturn \"\"\n\t}"),
 ]
+EXTRA2 = {
+ # second edit in the same file (both sites change together)
+ "chunk-key-alias-only": ("plan.go", "func (c *ExecuteCtx) SetChunkFieldResult(name string, key []byte, chunk []any) {\n\tif !c.EnableCache {\n\t\treturn\n\t}\n\tckey := fmt.Sprintf(\"%s-%s\", name, string(key))", "func (c *ExecuteCtx) SetChunkFieldResult(name string, key []byte, chunk []any) {\n\tif !c.EnableCache {\n\t\treturn\n\t}\n\tckey := fmt.Sprintf(\"%s-%s\", name, string(key[:len(key)/2]))"),
+}
 EXTRA = {
  "global-regexp-cache": ("expression_exec_vec.go", "\nvar sharedRegexpCache = make(map[string]*regexp.Regexp)\n"),
 }
@@ -82,6 +86,11 @@ def main():
             src = src.replace(old, new, 1)
             if name in EXTRA:
                 src += EXTRA[name][1]
+            if name in EXTRA2:
+                _, o2, n2 = EXTRA2[name]
+                if src.count(o2) < 1:
+                    print("!! %s: second pattern not found" % name)
+                src = src.replace(o2, n2, 1)
             open(path, "w").write(src)
             rc, out = sh("gofmt -l . ; go build ./... && go test -vet=off -count=1 ./...", WT)
             if rc != 0:
